@@ -581,4 +581,49 @@ theorem hit_rangeOK {utf16 : Bool} {doc : Txt} {j : Journal} {h : Hit}
     · exact absurd hn h3
     · exact node_rangeOK ht hn hg
 
+/-! ### Laminar families -/
+
+theorem allPairs_map {α β} {rel : α → α → Bool} {rel' : β → β → Bool} (f : α → β) (l : List α)
+    (h : ∀ a ∈ l, ∀ b ∈ l, rel a b = true → rel' (f a) (f b) = true)
+    (hl : allPairs rel l = true) : allPairs rel' (l.map f) = true := by
+  induction l with
+  | nil => rfl
+  | cons a rest ih =>
+    simp only [allPairs, Bool.and_eq_true, List.all_eq_true, List.map_cons, List.mem_map] at hl ⊢
+    refine ⟨?_, ih (fun x hx y hy => h x (by simp [hx]) y (by simp [hy])) hl.2⟩
+    rintro _ ⟨b, hb, rfl⟩
+    exact h a (by simp) b (by simp [hb]) (hl.1 b hb)
+
+theorem allPairs_filterMap {α β} {rel : α → α → Bool} {rel' : β → β → Bool} (f : α → Option β) (l : List α)
+    (h : ∀ a ∈ l, ∀ b ∈ l, rel a b = true → ∀ x, f a = some x → ∀ y, f b = some y → rel' x y = true)
+    (hl : allPairs rel l = true) : allPairs rel' (l.filterMap f) = true := by
+  induction l with
+  | nil => rfl
+  | cons a rest ih =>
+    simp only [allPairs, Bool.and_eq_true, List.all_eq_true] at hl
+    have ih' := ih (fun x hx y hy => h x (by simp [hx]) y (by simp [hy])) hl.2
+    simp only [List.filterMap_cons]
+    cases hfa : f a with
+    | none => simpa using ih'
+    | some x =>
+      simp only [allPairs, Bool.and_eq_true, List.all_eq_true, List.mem_filterMap]
+      refine ⟨?_, ih'⟩
+      rintro y ⟨b, hb, hfb⟩
+      exact h a (by simp) b (by simp [hb]) (hl.1 b hb) x hfa y hfb
+
+/-- Half-open position ranges of the tree that do not overlap. -/
+def astDisjoint (a b : Rng) : Bool := posLe a.stop b.start || posLe b.stop a.start
+
+def rngPos (r : Rng) : Bool :=
+  decide (1 ≤ r.start.line) && decide (1 ≤ r.start.col) && decide (1 ≤ r.stop.line) && decide (1 ≤ r.stop.col)
+
+theorem symRel_conv {a b : Rng} (ha : rngSmall a = true) (hb : rngSmall b = true)
+    (pa : rngPos a = true) (pb : rngPos b = true) (h : astDisjoint a b = true) :
+    symRel (toN (astRangeToProtocol a)) (toN (astRangeToProtocol b)) = true := by
+  simp only [rngPos, Bool.and_eq_true, decide_eq_true_eq] at pa pb
+  rw [toN_conv ha pa.1.1.1 pa.1.1.2 pa.1.2 pa.2, toN_conv hb pb.1.1.1 pb.1.1.2 pb.1.2 pb.2]
+  simp only [astDisjoint, posLe, symRel, leqPos, Bool.or_eq_true, Bool.and_eq_true, decide_eq_true_eq,
+    beq_iff_eq] at h ⊢
+  omega
+
 end HL.Lemmas.Ranges
